@@ -113,6 +113,9 @@ struct Scenario {
     ntracks: usize,
     /// consume the two result streams through into_iter() instead of all()
     iter: bool,
+    /// an earlier query on the same store: 0 = none, 1 = abandoned (both streams dropped unread),
+    /// 2 = results read, error stream dropped unread
+    prior: u8,
 }
 
 fn run_scenario(sc: &Scenario) -> Obs {
@@ -120,6 +123,17 @@ fn run_scenario(sc: &Scenario) -> Obs {
     for s in contents().iter().take(sc.ntracks) {
         let t = make(&store, s);
         store.add_track(t).unwrap();
+    }
+    if sc.prior > 0 {
+        // a different candidate (feature class 1: produces both results and missing-class errors)
+        let c = vec![make(&store, &foreign(12, 1)), make(&store, &foreign(13, 0))];
+        let (ok0, err0) = store.foreign_track_distances(c, 1, false);
+        if sc.prior == 2 {
+            let _ = ok0.all();
+        } else {
+            drop(ok0);
+        }
+        drop(err0);
     }
     sched::set_phase(1);
     let (ok, err) = match sc.batch {
@@ -178,7 +192,7 @@ fn expected(sc: &Scenario) -> (Vec<Item>, usize, Vec<TrackDump>) {
 
 pub fn run(tier: Tier) -> Report {
     let rep = Report::new("C10", tier);
-    rep.set_rule("scenarios = store contents (4-6 tracks: mixed compatibility class, status Pending / Ready / Wasted, 0..2 observations in classes {0,1}, a pair beyond the metric cut-off) x candidate batch {one foreign, two foreign, foreign with a stored id, owned [1], owned [1,2], owned [2,4,1]} x only_baked x result streams consumed through all() / into_iter() x shard count; for each scenario every schedule of the store workers and the caller at command granularity within the preemption bound (window = the query until both result streams are drained); oracle: result multiset = reference cartesian product, error count, store unchanged, identical across schedules. states = executions (schedules), transitions = decision points.");
+    rep.set_rule("scenarios = store contents (4-6 tracks: mixed compatibility class, status Pending / Ready / Wasted, 0..2 observations in classes {0,1}, a pair beyond the metric cut-off) x candidate batch {one foreign, two foreign, foreign with a stored id, owned [1], owned [1,2], owned [2,4,1]} x only_baked x result streams consumed through all() / into_iter() x {fresh store, after an earlier query that was abandoned unread, after one whose error stream was dropped unread} x shard count; for each scenario every schedule of the store workers and the caller at command granularity within the preemption bound (window = the query until both result streams are drained); oracle: result multiset = reference cartesian product, error count, store unchanged, identical across schedules. states = executions (schedules), transitions = decision points.");
     rep.assume("macro-step granularity: branching at named schedule points (worker dequeues a command; caller finished queueing; owned query between 'commands sent' and 're-added') and whenever the running task blocks");
     let shard_counts: Vec<usize> = tier.pick(vec![1, 2], vec![1, 2, 3]);
     let bound = usize::MAX / 4; // every schedule at command granularity (the spaces are small); the wall cap is the only limit
@@ -187,11 +201,15 @@ pub fn run(tier: Tier) -> Report {
     let mut vacuity: BTreeMap<String, serde_json::Value> = BTreeMap::new();
     for &shards in &shard_counts {
         for batch in batches {
-            for (only_baked, iter) in [(false, false), (true, false), (false, true), (true, true)] {
+            for (only_baked, iter, prior) in [(false, false, 0u8), (true, false, 0), (false, true, 0), (true, true, 0), (false, false, 1), (false, false, 2), (false, true, 1)] {
                 if tier == Tier::Quick && (only_baked && (batch == "foreign2" || batch == "owned3") || iter && only_baked && batch != "foreign-stored-id") {
                     continue;
                 }
-                let sc = Scenario { shards, batch, only_baked, ntracks: if batch == "owned3" { 5 } else if only_baked { 6 } else { 4 }, iter };
+                // an earlier query that was abandoned / half-read: two representative batches (quick), all (thorough)
+                if prior > 0 && (tier == Tier::Quick && !(batch == "foreign1" || batch == "owned2") || iter && batch != "foreign1") {
+                    continue;
+                }
+                let sc = Scenario { shards, batch, only_baked, ntracks: if batch == "owned3" { 5 } else if only_baked { 6 } else { 4 }, iter, prior };
                 if rep.out_of_time() {
                     rep.cap_hit(&format!("wall budget reached before scenario {sc:?}"));
                     continue;
@@ -202,7 +220,7 @@ pub fn run(tier: Tier) -> Report {
                 let arrivals: Mutex<std::collections::BTreeSet<Vec<u64>>> = Mutex::new(Default::default());
                 let cfg = sched::ExploreCfg { window: (1, 1), bound, deadline: Some(std::time::Instant::now() + std::time::Duration::from_secs_f64((rep.budget() - rep.elapsed()).max(1.0))), ..Default::default() };
                 let sc_run = sc.clone();
-                let scj = json!({"shards":shards,"batch":batch,"only_baked":only_baked,"tracks":sc.ntracks,"consumed_through":if iter { "into_iter()" } else { "all()" }});
+                let scj = json!({"shards":shards,"batch":batch,"only_baked":only_baked,"tracks":sc.ntracks,"consumed_through":if iter { "into_iter()" } else { "all()" },"earlier_query":prior});
                 let stats = sched::explore(
                     &cfg,
                     move || run_scenario(&sc_run),
@@ -248,7 +266,7 @@ pub fn run(tier: Tier) -> Report {
                 if stats.truncated {
                     rep.cap_hit(&format!("scenario {sc:?} truncated by the wall cap after {} schedules", stats.executions));
                 }
-                vacuity.insert(format!("{batch}/baked={only_baked}/shards={shards}/{}", if iter { "iter" } else { "all" }), json!({"schedules":stats.executions,"max_decision_points":stats.max_points,"distinct_outcomes":n_out,"distinct_arrival_orders":arrivals.lock().unwrap().len(),"bound":"all","truncated":stats.truncated}));
+                vacuity.insert(format!("{batch}/baked={only_baked}/shards={shards}/{}{}", if iter { "iter" } else { "all" }, match prior { 0 => "", 1 => "/after-abandoned-query", _ => "/after-half-read-query" }), json!({"schedules":stats.executions,"max_decision_points":stats.max_points,"distinct_outcomes":n_out,"distinct_arrival_orders":arrivals.lock().unwrap().len(),"bound":"all","truncated":stats.truncated}));
                 if rep.want_sample(total_exec) || vacuity.len() == 3 {
                     rep.sample(json!({"scenario":scj,"expected_pairs":exp_ok.iter().map(|i| (i.0,i.1)).collect::<Vec<_>>(),"expected_errors":exp_err,"schedules":stats.executions}));
                 }
@@ -257,15 +275,16 @@ pub fn run(tier: Tier) -> Report {
     }
     // fine tier: branch at every synchronisation operation (one preemption) on the smallest scenarios
     let fine: Vec<Scenario> = tier.pick(
-        vec![Scenario { shards: 1, batch: "owned2", only_baked: false, ntracks: 4, iter: false }],
-        vec![Scenario { shards: 1, batch: "owned2", only_baked: false, ntracks: 4, iter: false }, Scenario { shards: 2, batch: "owned2", only_baked: false, ntracks: 4, iter: true }, Scenario { shards: 2, batch: "foreign2", only_baked: true, ntracks: 4, iter: false }],
+        vec![Scenario { shards: 1, batch: "owned2", only_baked: false, ntracks: 4, iter: false, prior: 0 }, Scenario { shards: 2, batch: "foreign1", only_baked: false, ntracks: 4, iter: true, prior: 1 }, Scenario { shards: 2, batch: "owned2", only_baked: false, ntracks: 4, iter: false, prior: 0 }],
+        vec![Scenario { shards: 1, batch: "owned2", only_baked: false, ntracks: 4, iter: false, prior: 0 }, Scenario { shards: 2, batch: "foreign1", only_baked: false, ntracks: 4, iter: true, prior: 1 }, Scenario { shards: 2, batch: "owned2", only_baked: false, ntracks: 4, iter: true, prior: 0 }, Scenario { shards: 2, batch: "foreign2", only_baked: true, ntracks: 4, iter: false, prior: 0 }],
     );
+    let fine_bound = tier.pick(2usize, 3usize);
     for sc in fine {
         let (exp_ok, exp_err, stored) = expected(&sc);
         let shards = sc.shards;
         let exp_store: Vec<(usize, Vec<TrackDump>)> = (0..shards).map(|k| (k, stored.iter().filter(|t| (t.id as usize) % shards == k).cloned().collect())).collect();
-        let cfg = sched::ExploreCfg { mode: sched::Mode::Fine, count_all_deviations: true, window: (1, 1), bound: 1, deadline: Some(std::time::Instant::now() + std::time::Duration::from_secs_f64((rep.budget() - rep.elapsed()).max(1.0))), ..Default::default() };
-        let scj = json!({"shards":shards,"batch":sc.batch,"only_baked":sc.only_baked,"tracks":sc.ntracks,"granularity":"every synchronisation operation, at most one departure from the default schedule"});
+        let cfg = sched::ExploreCfg { mode: sched::Mode::Fine, count_all_deviations: true, window: (1, 1), bound: fine_bound, deadline: Some(std::time::Instant::now() + std::time::Duration::from_secs_f64((rep.budget() - rep.elapsed()).max(1.0))), ..Default::default() };
+        let scj = json!({"shards":shards,"batch":sc.batch,"only_baked":sc.only_baked,"tracks":sc.ntracks,"consumed_through":if sc.iter { "into_iter()" } else { "all()" },"earlier_query":sc.prior,"granularity":format!("every synchronisation operation, at most {fine_bound} departures from the default schedule")});
         let sc_run = sc.clone();
         let stats = sched::explore(&cfg, move || run_scenario(&sc_run), |x| match &x.outcome {
             sched::Outcome::Done(o) => {
@@ -281,13 +300,13 @@ pub fn run(tier: Tier) -> Report {
         if stats.truncated {
             rep.cap_hit(&format!("fine tier {sc:?} truncated after {} schedules", stats.executions));
         }
-        vacuity.insert(format!("fine/{}/shards={}", sc.batch, sc.shards), json!({"schedules":stats.executions,"max_decision_points":stats.max_points,"bound":1,"truncated":stats.truncated}));
+        vacuity.insert(format!("fine/{}/shards={}", sc.batch, sc.shards), json!({"schedules":stats.executions,"max_decision_points":stats.max_points,"bound":fine_bound,"truncated":stats.truncated}));
     }
     rep.distinct_count(total_exec);
     rep.extra("scenarios", json!(vacuity));
-    rep.extra("preemption_bound_completed", json!("unbounded: every schedule at command granularity; fine tier: 1 preemption at every synchronisation operation"));
+    rep.extra("preemption_bound_completed", json!("unbounded: every schedule at command granularity; fine tier: 2 (thorough 3) departures from the default schedule at any synchronisation operation"));
     // determinism self-check: the same schedule twice gives the same observation
-    let sc = Scenario { shards: 2, batch: "foreign2", only_baked: false, ntracks: 4, iter: false };
+    let sc = Scenario { shards: 2, batch: "foreign2", only_baked: false, ntracks: 4, iter: false, prior: 0 };
     let cfg = sched::ExploreCfg { window: (1, 1), ..Default::default() };
     let f = std::sync::Arc::new(move || run_scenario(&sc));
     let mut replays = 0;
@@ -323,7 +342,7 @@ pub fn replay(file: &serde_json::Value) -> i32 {
         "owned2" => "owned2",
         _ => "owned3",
     };
-    let scen = Scenario { shards: sc["shards"].as_u64().unwrap_or(1) as usize, batch, only_baked: sc["only_baked"].as_bool().unwrap_or(false), ntracks: sc["tracks"].as_u64().unwrap_or(4) as usize, iter: sc["consumed_through"].as_str() == Some("into_iter()") };
+    let scen = Scenario { shards: sc["shards"].as_u64().unwrap_or(1) as usize, batch, only_baked: sc["only_baked"].as_bool().unwrap_or(false), ntracks: sc["tracks"].as_u64().unwrap_or(4) as usize, iter: sc["consumed_through"].as_str() == Some("into_iter()"), prior: sc["earlier_query"].as_u64().unwrap_or(0) as u8 };
     let fine = sc["granularity"].is_string();
     let choices: Vec<usize> = r["schedule"]["choices"].as_array().map(|a| a.iter().map(|x| x.as_u64().unwrap_or(0) as usize).collect()).unwrap_or_default();
     let (exp_ok, exp_err, _) = expected(&scen);
